@@ -174,7 +174,28 @@ func (g *genState) genC01() {
 		g.emit("raw-any", "w,g,x=["+tree.Canon(src)+",{},"+tree.Canon(src)+",]", "list;eany@0 "+hexs+";eany@0 000050;eany@0 "+hexs+";build@0")
 		g.emit("raw-any", "w,g,x=[{},"+tree.Canon(src)+",]", "list;eany@0 000050;eany@0 "+hexs+";build@0")
 		g.emit("raw-copy", "w,g,x="+tree.Canon(src), "msg;copy@0 "+hexs+";build@0")
-		g.emit("raw-copy", "w,g", "msg;f@0 1 i32 9;merge@0 "+hexs+";has@0 1;build@0")
+		// merge into a message that has written fields of its own (one or several, below and above the
+		// source's tags): the written ones win, the others come from the source
+		for _, own := range [][]uint16{{1}, {1, 2}, {3, 1, 400}, {2, 7, 9, 300, 5}} {
+			dst := &tree.Node{Kind: "msg"}
+			prog := "msg"
+			for _, t := range own {
+				dst.Tags = append(dst.Tags, t)
+				dst.Fields = append(dst.Fields, &tree.Node{Kind: "i32", I: int64(t) + 9})
+				prog += fmt.Sprintf(";f@0 %d i32 %d", t, int64(t)+9)
+			}
+			for j, t := range src.Tags {
+				dup := false
+				for _, o := range own {
+					dup = dup || o == t
+				}
+				if !dup {
+					dst.Tags = append(dst.Tags, t)
+					dst.Fields = append(dst.Fields, src.Fields[j])
+				}
+			}
+			g.emit("raw-copy", "w,g,x="+tree.Canon(dst), prog+";merge@0 "+hexs+";has@0 1;build@0")
+		}
 	}
 }
 
